@@ -1,5 +1,6 @@
 import Enc.Lemmas.ProtoTemplateValue
 import Enc.Lemmas.JsonDecInt
+import Std.Tactic.BVDecide
 /-!
 # Value level of templates, part 4: the leaf encoders of `parseRewriteTemplate`
 
@@ -10,7 +11,8 @@ member denoting the zero value compiles to NO rewriter (the field is deleted, i.
 -/
 namespace Enc.Lemmas.ProtoTemplate
 open Enc Enc.Spec.Protobuf Enc.Lemmas.ProtoRewriteSpec
-open Enc.Model.Proto (PKind RwT parseLeaf fieldVarint fieldVarlen appendField encodeVarint gvInt gvBool gvString PF)
+open Enc.Model.Proto (PKind RwT parseLeaf fieldVarint fieldVarlen fieldFixed32 fieldFixed64 le32 le64 encodeZigZag32 encodeZigZag64
+  appendField encodeVarint gvInt gvBool gvString gvFloat floatIsZero PF)
 open Enc.Model.Json (GV ITy)
 
 /-! ### one-record messages -/
@@ -80,26 +82,26 @@ theorem appendField_length_le (f t : Nat) (v : Bytes) : (appendField f t v).leng
 /-- length of the string a member denotes (0 for the other kinds) -/
 def strLen (j : GV) : Nat := match gvString j with | some s => s.length | none => 0
 
-/-- proved universe of leaf kinds: the Go type of a field and its tag options ↦ the kind TypeOf presents -/
+/-- proved universe of leaf kinds: the Go type of a field and its tag options ↦ the kind TypeOf presents (all 15 kinds;
+a zig-zag or fixed-width option on a type that has no such wire form is outside) -/
 def kindOf (t : Ty) (o : FieldOpt) : Option PKind :=
-  if o.zigzag || o.fixed then none
-  else match t with
-    | .bool => some .bool
-    | .int .i32 => some .int32
-    | .int .i64 => some .int64
-    | .int .int => some .int64
-    | .int .u64 => some .uint64
-    | .int .uint => some .uint64
-    | .int .u32 => some .uint32
-    | .str => some .string
-    | .bytes => some .bytes
-    | _ => none
+  match t with
+  | .bool => if o.zigzag || o.fixed then none else some .bool
+  | .int .i32 => if o.fixed then (if o.zigzag then none else some .sfix32) else if o.zigzag then some .sint32 else some .int32
+  | .int .i64 => if o.fixed then (if o.zigzag then none else some .sfix64) else if o.zigzag then some .sint64 else some .int64
+  | .int .int => if o.fixed then none else if o.zigzag then some .sint64 else some .int64
+  | .int .u32 => if o.zigzag then none else if o.fixed then some .fix32 else some .uint32
+  | .int .u64 => if o.zigzag then none else if o.fixed then some .fix64 else some .uint64
+  | .int .uint => if o.zigzag || o.fixed then none else some .uint64
+  | .f32 => if o.zigzag then none else some .float
+  | .f64 => if o.zigzag then none else some .double
+  | .str => if o.zigzag || o.fixed then none else some .string
+  | .bytes => if o.zigzag || o.fixed then none else some .bytes
+  | _ => none
 
 theorem kindOf_scalar (t : Ty) (o : FieldOpt) (k : PKind) (h : kindOf t o = some k) : scalarTy t = true := by
   unfold kindOf at h
-  split at h
-  · cases h
-  · split at h <;> simp_all [scalarTy]
+  split at h <;> simp_all [scalarTy]
 
 theorem sdec_signed (k : IntKind) (o : FieldOpt) (hz : o.zigzag = false) (hf : o.fixed = false) (v : Int)
     (hk : k.signed = true) (hr : k.inRange v = true) (h1 : -(2 : Int) ^ 63 ≤ v) (h2 : v < (2 : Int) ^ 63) :
@@ -120,110 +122,403 @@ theorem sdec_unsigned (k : IntKind) (o : FieldOpt) (hf : o.fixed = false) (v : I
     omega
   simp only [sdec, decodeOne, hf, hk, Bool.false_eq_true, if_false, e, hr, if_true]
 
-/-- the integer leaf encoders that write a plain varint -/
-theorem leaf_varint (pf : PF) (k : PKind) (T : ITy) (ik : IntKind) (o : FieldOpt) (hz : o.zigzag = false)
-    (hfx : o.fixed = false) (f : Nat) (h0 : 0 < f) (h1 : f < 2 ^ 61) (j : GV)
+theorem unzigzag_zigzag' (i : Int) : unzigzag (zigzag i) = i := by
+  unfold unzigzag zigzag
+  split <;> split <;> omega
+
+/-- zig-zag varint: the reference decoder un-zig-zags the specification's image -/
+theorem sdec_zigzag (k : IntKind) (o : FieldOpt) (hz : o.zigzag = true) (hf : o.fixed = false) (v : Int)
+    (hk : k.signed = true) (hr : k.inRange v = true) :
+    sdec (.int k) o (.varint (zigzag v)) = some (.int v) := by
+  simp only [sdec, decodeOne, hf, hz, hk, Bool.false_eq_true, if_false, if_true, unzigzag_zigzag', hr]
+
+/-! ### fixed-width records -/
+
+theorem valid_fieldFixed32 (f : Nat) (v : BitVec 32) (h0 : 0 < f) (h1 : f < 2 ^ 61) :
+    Valid (fieldFixed32 f v) [(f, .i32 (le32 v))] := by
+  have ht : VTok (leb128 (f * 8 + 5)) (f * 8 + 5) := vtok_leb128 _ (by omega)
+  have tok := rectok_fixed _ (le32 v) (f * 8 + 5) 4 5 (.i32 (le32 v)) ht (Or.inl ⟨rfl, rfl, rfl⟩) (by simp [le32])
+    (by omega) (by omega)
+  have h := tok.valid_app valid_nil
+  have e : (f * 8 + 5) / 8 = f := by omega
+  rw [e] at h
+  simpa [fieldFixed32, appendField] using h
+
+theorem valid_fieldFixed64 (f : Nat) (v : BitVec 64) (h0 : 0 < f) (h1 : f < 2 ^ 61) :
+    Valid (fieldFixed64 f v) [(f, .i64 (le64 v))] := by
+  have ht : VTok (leb128 (f * 8 + 1)) (f * 8 + 1) := vtok_leb128 _ (by omega)
+  have tok := rectok_fixed _ (le64 v) (f * 8 + 1) 8 1 (.i64 (le64 v)) ht (Or.inr ⟨rfl, rfl, rfl⟩) (by simp [le64])
+    (by omega) (by omega)
+  have h := tok.valid_app valid_nil
+  have e : (f * 8 + 1) / 8 = f := by omega
+  rw [e] at h
+  simpa [fieldFixed64, appendField] using h
+
+theorem fieldFixed32_length (f : Nat) (v : BitVec 32) : (fieldFixed32 f v).length ≤ 30 := by
+  have := appendField_length_le f 5 (le32 v)
+  have hl : (le32 v).length = 4 := rfl
+  simp only [fieldFixed32]; omega
+theorem fieldFixed64_length (f : Nat) (v : BitVec 64) : (fieldFixed64 f v).length ≤ 30 := by
+  have := appendField_length_le f 1 (le64 v)
+  have hl : (le64 v).length = 8 := rfl
+  simp only [fieldFixed64]; omega
+theorem fieldVarint_length (f : Nat) (v : BitVec 64) : (fieldVarint f v).length ≤ 30 := by
+  have := appendField_length_le f 0 (encodeVarint v)
+  have := encodeVarint_length_le v
+  simp only [fieldVarint]; omega
+
+/-! ### 32-bit zig-zag -/
+
+theorem zz32_nonneg (v : BitVec 32) (h : v < 0x80000000#32) : encodeZigZag32 v = v <<< 1 := by
+  unfold encodeZigZag32; bv_decide
+theorem zz32_neg (v : BitVec 32) (h : ¬ v < 0x80000000#32) : encodeZigZag32 v = ~~~ (v <<< 1) := by
+  unfold encodeZigZag32; bv_decide
+
+/-- `encodeZigZag32(int32(v))` is the specification's zig-zag image, for every int32 -/
+theorem zigzag32_spec (i : Int) (h1 : -(2:Int)^31 ≤ i) (h2 : i < (2:Int)^31) :
+    (encodeZigZag32 (BitVec.ofInt 32 i)).toNat = zigzag i := by
+  have hv : (BitVec.ofInt 32 i).toNat = (i % 2 ^ 32).toNat := BitVec.toNat_ofInt ..
+  generalize BitVec.ofInt 32 i = v at hv
+  simp only [Int.reducePow] at h1 h2 hv
+  unfold zigzag
+  by_cases hi : i ≥ 0
+  · have hlt : v < 0x80000000#32 := by
+      rw [BitVec.lt_def]; simp only [BitVec.toNat_ofNat, Nat.reducePow, Nat.reduceMod]; omega
+    rw [zz32_nonneg v hlt, BitVec.toNat_shiftLeft, Nat.shiftLeft_eq]
+    simp only [hi, if_true, Nat.reducePow]
+    omega
+  · have hlt : ¬ v < 0x80000000#32 := by
+      rw [BitVec.lt_def]; simp only [BitVec.toNat_ofNat, Nat.reducePow, Nat.reduceMod]; omega
+    rw [zz32_neg v hlt, BitVec.toNat_not, BitVec.toNat_shiftLeft, Nat.shiftLeft_eq]
+    simp only [hi, if_false, Nat.reducePow]
+    omega
+
+/-- `strconv.ParseFloat(lit, bits)` returns a value of that width -/
+def PFok (pf : PF) : Prop := ∀ lit b, (pf lit 32 = some b → b < 2 ^ 32) ∧ (pf lit 64 = some b → b < 2 ^ 64)
+
+/-- bits of the float a member denotes after the rewrite: `-0` is elided like `0` (Go: `v == 0`), so it reads back as `+0` -/
+def floatRead (b width : Nat) : Nat := if floatIsZero b width then 0 else b
+
+/-- what a JSON member denotes for a leaf (value of the field after the rewrite), all 15 kinds; floats relative to `pf` -/
+def leafVal (pf : PF) (k : PKind) (j : GV) : Option Val :=
+  match k with
+  | .bool => (gvBool j).map .bool
+  | .int32 | .sint32 | .sfix32 => (gvInt .i32 j).map .int
+  | .int64 | .sint64 | .sfix64 => (gvInt .i64 j).map .int
+  | .uint64 | .fix64 => (gvInt .u64 j).map .int
+  | .uint32 | .fix32 => (gvInt .u32 j).map .int
+  | .float => (gvFloat pf 32 j).map fun b => .float (floatRead b 32)
+  | .double => (gvFloat pf 64 j).map fun b => .float (floatRead b 64)
+  | .string => (gvString j).map .str
+  | .bytes => (gvString j).map fun s => if s.isEmpty then .nil else .str s      -- `[]byte`: empty ≡ nil
+
+/-- generic integer leaf: the encoder `enc` writes, for every value of the Go type `T`, one record that the reference
+decoder reads back as that value -/
+theorem leaf_int_gen (pf : PF) (k : PKind) (T : ITy) (t : Ty) (o : FieldOpt) (f : Nat) (j : GV) (enc : Int → Bytes)
+    (wv : Int → WireVal)
     (hp : parseLeaf pf k f j = match gvInt T j with
       | none => .err "json"
-      | some v => if v == 0 then .ok none else .ok (some (.raw (fieldVarint f (BitVec.ofInt 64 v)))))
-    (hr : ∀ v, JsonDecInt.lo T ≤ v → v ≤ JsonDecInt.hi T →
-      ik.inRange v = true ∧ ((ik.signed = true ∧ -(2 : Int) ^ 63 ≤ v ∧ v < (2 : Int) ^ 63) ∨
-        (ik.signed = false ∧ 0 ≤ v ∧ v < (2 : Int) ^ 64))) :
+      | some v => if v == 0 then .ok none else .ok (some (.raw (enc v))))
+    (hz : Spec.Protobuf.zeroOf t = .int 0)
+    (henc : ∀ v, JsonDecInt.lo T ≤ v → v ≤ JsonDecInt.hi T →
+      (enc v).length ≤ 30 ∧ Valid (enc v) [(f, wv v)] ∧ sdec t o (wv v) = some (.int v)) :
     match (gvInt T j).map Val.int with
     | none => parseLeaf pf k f j = .err "json"
     | some x =>
-      (parseLeaf pf k f j = .ok none ∧ x = Spec.Protobuf.zeroOf (.int ik)) ∨
+      (parseLeaf pf k f j = .ok none ∧ x = Spec.Protobuf.zeroOf t) ∨
       (∃ b w, parseLeaf pf k f j = .ok (some (.raw b)) ∧ b.length ≤ 30 + strLen j ∧ Valid b [(f, w)] ∧
-        sdec (.int ik) o w = some x) := by
+        sdec t o w = some x) := by
   cases hg : gvInt T j with
   | none => simp [hp, hg]
   | some v =>
     obtain ⟨r1, r2⟩ := gvInt_range _ _ _ hg
-    obtain ⟨hin, hcase⟩ := hr v r1 r2
+    obtain ⟨hl, hv, hs⟩ := henc v r1 r2
     simp only [Option.map_some]
-    by_cases hv : v = 0
-    · left; subst hv; simp [hp, hg, Spec.Protobuf.zeroOf]
+    by_cases hv0 : v = 0
+    · left; subst hv0; simp [hp, hg, hz]
     · right
-      refine ⟨_, .varint (BitVec.ofInt 64 v).toNat, by simp [hp, hg, hv], ?_, valid_fieldVarint f _ h0 h1, ?_⟩
-      · have := appendField_length_le f 0 (encodeVarint (BitVec.ofInt 64 v))
-        have := encodeVarint_length_le (BitVec.ofInt 64 v)
-        simp only [fieldVarint]; omega
-      rcases hcase with ⟨hs, a, b⟩ | ⟨hs, a, b⟩
-      · exact sdec_signed ik o hz hfx v hs hin a b
-      · exact sdec_unsigned ik o hfx v hs hin a b
+      exact ⟨enc v, wv v, by simp [hp, hg, hv0], by omega, hv, hs⟩
 
-/-- what a JSON member denotes for a leaf of the proved universe (value of the field after the rewrite) -/
-def leafVal (k : PKind) (j : GV) : Option Val :=
-  match k with
-  | .bool => (gvBool j).map .bool
-  | .int32 => (gvInt .i32 j).map .int
-  | .int64 => (gvInt .i64 j).map .int
-  | .uint64 => (gvInt .u64 j).map .int
-  | .uint32 => (gvInt .u32 j).map .int
-  | .string => (gvString j).map .str
-  | .bytes => (gvString j).map fun s => if s.isEmpty then .nil else .str s      -- `[]byte`: empty ≡ nil
-  | _ => none
+theorem inRange_i32 (v : Int) (a : -(2:Int)^31 ≤ v) (b : v ≤ (2:Int)^31 - 1) : IntKind.inRange .i32 v = true := by
+  unfold IntKind.inRange
+  simp only [IntKind.signed, IntKind.bits, if_true, Bool.and_eq_true, Nat.reduceSub, Int.reducePow] at a b ⊢
+  exact ⟨decide_eq_true (by omega), decide_eq_true (by omega)⟩
+theorem inRange_i64 (v : Int) (a : -(2:Int)^63 ≤ v) (b : v ≤ (2:Int)^63 - 1) : IntKind.inRange .i64 v = true := by
+  unfold IntKind.inRange
+  simp only [IntKind.signed, IntKind.bits, if_true, Bool.and_eq_true, Nat.reduceSub, Int.reducePow] at a b ⊢
+  exact ⟨decide_eq_true (by omega), decide_eq_true (by omega)⟩
+theorem inRange_int (v : Int) (a : -(2:Int)^63 ≤ v) (b : v ≤ (2:Int)^63 - 1) : IntKind.inRange .int v = true := by
+  unfold IntKind.inRange
+  simp only [IntKind.signed, IntKind.bits, if_true, Bool.and_eq_true, Nat.reduceSub, Int.reducePow] at a b ⊢
+  exact ⟨decide_eq_true (by omega), decide_eq_true (by omega)⟩
+theorem inRange_u32 (v : Int) (a : 0 ≤ v) (b : v ≤ (2:Int)^32 - 1) : IntKind.inRange .u32 v = true := by
+  unfold IntKind.inRange
+  simp only [IntKind.signed, IntKind.bits, Bool.false_eq_true, if_false, Bool.and_eq_true, Int.reducePow] at a b ⊢
+  exact ⟨decide_eq_true (by omega), decide_eq_true (by omega)⟩
+theorem inRange_u64 (v : Int) (a : 0 ≤ v) (b : v ≤ (2:Int)^64 - 1) : IntKind.inRange .u64 v = true := by
+  unfold IntKind.inRange
+  simp only [IntKind.signed, IntKind.bits, Bool.false_eq_true, if_false, Bool.and_eq_true, Int.reducePow] at a b ⊢
+  exact ⟨decide_eq_true (by omega), decide_eq_true (by omega)⟩
+theorem inRange_uint (v : Int) (a : 0 ≤ v) (b : v ≤ (2:Int)^64 - 1) : IntKind.inRange .uint v = true := by
+  unfold IntKind.inRange
+  simp only [IntKind.signed, IntKind.bits, Bool.false_eq_true, if_false, Bool.and_eq_true, Int.reducePow] at a b ⊢
+  exact ⟨decide_eq_true (by omega), decide_eq_true (by omega)⟩
 
-/-- **leaf encoders.** On a plain field of kind `k` (Go type `t`, options `o`, number `f`): `parseLeaf` fails exactly when the
-member denotes no value of the kind; a zero value compiles to no rewriter; any other value `x` to a `raw` one-record
-message `(f, w)` that the reference decoder reads back as `x`. -/
-theorem leaf_sem (pf : PF) (t : Ty) (o : FieldOpt) (k : PKind) (hk : kindOf t o = some k) (f : Nat) (h0 : 0 < f)
+theorem range_i32 (v : Int) (a : JsonDecInt.lo .i32 ≤ v) (b : v ≤ JsonDecInt.hi .i32) : -(2:Int)^31 ≤ v ∧ v ≤ (2:Int)^31 - 1 := by
+  simp only [JsonDecInt.lo, JsonDecInt.hi, ITy.signed, ITy.bits, if_true, Nat.reduceSub] at a b; exact ⟨a, b⟩
+theorem range_i64 (v : Int) (a : JsonDecInt.lo .i64 ≤ v) (b : v ≤ JsonDecInt.hi .i64) : -(2:Int)^63 ≤ v ∧ v ≤ (2:Int)^63 - 1 := by
+  simp only [JsonDecInt.lo, JsonDecInt.hi, ITy.signed, ITy.bits, if_true, Nat.reduceSub] at a b; exact ⟨a, b⟩
+theorem range_u32 (v : Int) (a : JsonDecInt.lo .u32 ≤ v) (b : v ≤ JsonDecInt.hi .u32) : 0 ≤ v ∧ v ≤ (2:Int)^32 - 1 := by
+  simp only [JsonDecInt.lo, JsonDecInt.hi, ITy.signed, ITy.bits, Bool.false_eq_true, if_false] at a b; exact ⟨a, b⟩
+theorem range_u64 (v : Int) (a : JsonDecInt.lo .u64 ≤ v) (b : v ≤ JsonDecInt.hi .u64) : 0 ≤ v ∧ v ≤ (2:Int)^64 - 1 := by
+  simp only [JsonDecInt.lo, JsonDecInt.hi, ITy.signed, ITy.bits, Bool.false_eq_true, if_false] at a b; exact ⟨a, b⟩
+
+
+/-- generic float leaf -/
+theorem leaf_float_gen (pf : PF) (k : PKind) (width : Nat) (t : Ty) (o : FieldOpt) (f : Nat) (j : GV) (enc : Nat → Bytes)
+    (wv : Nat → WireVal)
+    (hp : parseLeaf pf k f j = match gvFloat pf width j with
+      | none => .err "json"
+      | some b => if floatIsZero b width then .ok none else .ok (some (.raw (enc b))))
+    (hz : Spec.Protobuf.zeroOf t = .float 0)
+    (hw : ∀ b, gvFloat pf width j = some b → b < 2 ^ width)
+    (henc : ∀ b, b < 2 ^ width → (enc b).length ≤ 30 ∧ Valid (enc b) [(f, wv b)] ∧ sdec t o (wv b) = some (.float b)) :
+    match (gvFloat pf width j).map fun b => Val.float (floatRead b width) with
+    | none => parseLeaf pf k f j = .err "json"
+    | some x =>
+      (parseLeaf pf k f j = .ok none ∧ x = Spec.Protobuf.zeroOf t) ∨
+      (∃ b w, parseLeaf pf k f j = .ok (some (.raw b)) ∧ b.length ≤ 30 + strLen j ∧ Valid b [(f, w)] ∧
+        sdec t o w = some x) := by
+  cases hg : gvFloat pf width j with
+  | none => simp [hp, hg]
+  | some b =>
+    obtain ⟨hl, hv, hs⟩ := henc b (hw b hg)
+    simp only [Option.map_some]
+    by_cases hb0 : floatIsZero b width = true
+    · left; simp [hp, hg, hz, hb0, floatRead]
+    · right
+      simp only [Bool.not_eq_true] at hb0
+      exact ⟨enc b, wv b, by simp [hp, hg, hb0], by omega, hv, by simp [floatRead, hb0, hs]⟩
+
+theorem gvFloat_width (pf : PF) (hpf : PFok pf) (j : GV) (b : Nat) :
+    (gvFloat pf 32 j = some b → b < 2 ^ 32) ∧ (gvFloat pf 64 j = some b → b < 2 ^ 64) := by
+  cases j with
+  | null => simp only [gvFloat, Option.some.injEq]; constructor <;> (intro h; subst h; decide)
+  | num lit d => simp only [gvFloat]; exact hpf lit b
+  | bool | str | arr | obj => simp [gvFloat]
+
+theorem toNat_ofInt32 (v : Int) (a : 0 ≤ v) (b : v ≤ (2:Int)^32 - 1) : ((BitVec.ofInt 32 v).toNat : Int) = v := by
+  rw [BitVec.toNat_ofInt]; simp only [Int.reducePow, Nat.reducePow] at a b ⊢; omega
+theorem toNat_ofInt64 (v : Int) (a : 0 ≤ v) (b : v ≤ (2:Int)^64 - 1) : ((BitVec.ofInt 64 v).toNat : Int) = v := by
+  rw [BitVec.toNat_ofInt]; simp only [Int.reducePow, Nat.reducePow] at a b ⊢; omega
+
+/-- **leaf encoders, all 15 kinds.** On a field of kind `k` (Go type `t`, options `o`, number `f`): `parseLeaf` fails exactly when
+the member denotes no value of the kind; a zero value compiles to no rewriter; any other value `x` to a `raw` one-record
+message `(f, w)` that the reference decoder reads back as `x`. Floats relative to `pf` (`PFok`: it returns values of the
+requested width). -/
+theorem leaf_sem (pf : PF) (hpf : PFok pf) (t : Ty) (o : FieldOpt) (k : PKind) (hk : kindOf t o = some k) (f : Nat) (h0 : 0 < f)
     (h1 : f < 2 ^ 61) (j : GV) (hlen : ∀ s, gvString j = some s → s.length < 2 ^ 64) :
-    match leafVal k j with
+    match leafVal pf k j with
     | none => parseLeaf pf k f j = .err "json"
     | some x =>
       (parseLeaf pf k f j = .ok none ∧ x = Spec.Protobuf.zeroOf t) ∨
       (∃ b w, parseLeaf pf k f j = .ok (some (.raw b)) ∧ b.length ≤ 30 + strLen j ∧ Valid b [(f, w)] ∧
         sdec t o w = some x) := by
   unfold kindOf at hk
+  have hshape : ∀ (T : ITy) (kk : PKind) (enc : Int → Bytes),
+      (parseLeaf pf kk f j = match gvInt T j with
+        | none => Res.err "json"
+        | some v => if v == 0 then Res.ok none else Res.ok (some (RwT.raw (enc v)))) →
+      (parseLeaf pf kk f j = match gvInt T j with
+        | none => Res.err "json"
+        | some v => if v == 0 then Res.ok none else Res.ok (some (RwT.raw (enc v)))) := fun _ _ _ h => h
   split at hk
-  · cases hk
-  · rename_i hzf
-    simp only [Bool.or_eq_true, not_or, Bool.not_eq_true] at hzf
-    obtain ⟨hz, hfx⟩ := hzf
+  · -- bool
     split at hk <;> cases hk
-    · -- bool
-      simp only [leafVal]
-      cases hb : gvBool j with
-      | none => simp [parseLeaf, hb]
-      | some v =>
-        cases v with
-        | false => left; simp [parseLeaf, hb, Spec.Protobuf.zeroOf]
-        | true =>
-          right
-          refine ⟨fieldVarint f 1#64, .varint 1, by simp [parseLeaf, hb], ?_, ?_, by simp [sdec, decodeOne]⟩
-          · have := appendField_length_le f 0 (encodeVarint 1#64)
-            have := encodeVarint_length_le 1#64
-            simp only [fieldVarint]; omega
-          · simpa using valid_fieldVarint f 1#64 h0 h1
-    all_goals simp only [leafVal]
-    · exact leaf_varint pf .int32 .i32 .i32 o hz hfx f h0 h1 j (by simp only [parseLeaf]; cases gvInt _ j <;> rfl)
-        (fun v a b => by
-          simp only [JsonDecInt.lo, JsonDecInt.hi, ITy.signed, ITy.bits, if_true, Int.reducePow, Nat.reduceSub] at a b
-          refine ⟨by unfold IntKind.inRange; simp only [IntKind.signed, IntKind.bits, if_true, Bool.and_eq_true, Nat.reduceSub]; exact ⟨decide_eq_true (by omega), decide_eq_true (by omega)⟩, Or.inl ⟨rfl, by omega, by omega⟩⟩)
-    · exact leaf_varint pf .int64 .i64 .i64 o hz hfx f h0 h1 j (by simp only [parseLeaf]; cases gvInt _ j <;> rfl)
-        (fun v a b => by
-          simp only [JsonDecInt.lo, JsonDecInt.hi, ITy.signed, ITy.bits, if_true, Int.reducePow, Nat.reduceSub] at a b
-          refine ⟨by unfold IntKind.inRange; simp only [IntKind.signed, IntKind.bits, if_true, Bool.and_eq_true, Nat.reduceSub]; exact ⟨decide_eq_true (by omega), decide_eq_true (by omega)⟩, Or.inl ⟨rfl, by omega, by omega⟩⟩)
-    · exact leaf_varint pf .int64 .i64 .int o hz hfx f h0 h1 j (by simp only [parseLeaf]; cases gvInt _ j <;> rfl)
-        (fun v a b => by
-          simp only [JsonDecInt.lo, JsonDecInt.hi, ITy.signed, ITy.bits, if_true, Int.reducePow, Nat.reduceSub] at a b
-          refine ⟨by unfold IntKind.inRange; simp only [IntKind.signed, IntKind.bits, if_true, Bool.and_eq_true, Nat.reduceSub]; exact ⟨decide_eq_true (by omega), decide_eq_true (by omega)⟩, Or.inl ⟨rfl, by omega, by omega⟩⟩)
-    · exact leaf_varint pf .uint64 .u64 .u64 o hz hfx f h0 h1 j (by simp only [parseLeaf]; cases gvInt _ j <;> rfl)
-        (fun v a b => by
-          simp only [JsonDecInt.lo, JsonDecInt.hi, ITy.signed, ITy.bits, Bool.false_eq_true, if_false, Int.reducePow] at a b
-          refine ⟨by unfold IntKind.inRange; simp only [IntKind.signed, IntKind.bits, Bool.false_eq_true, if_false, Bool.and_eq_true]; exact ⟨decide_eq_true (by omega), decide_eq_true (by omega)⟩, Or.inr ⟨rfl, by omega, by omega⟩⟩)
-    · exact leaf_varint pf .uint64 .u64 .uint o hz hfx f h0 h1 j (by simp only [parseLeaf]; cases gvInt _ j <;> rfl)
-        (fun v a b => by
-          simp only [JsonDecInt.lo, JsonDecInt.hi, ITy.signed, ITy.bits, Bool.false_eq_true, if_false, Int.reducePow] at a b
-          refine ⟨by unfold IntKind.inRange; simp only [IntKind.signed, IntKind.bits, Bool.false_eq_true, if_false, Bool.and_eq_true]; exact ⟨decide_eq_true (by omega), decide_eq_true (by omega)⟩, Or.inr ⟨rfl, by omega, by omega⟩⟩)
-    · exact leaf_varint pf .uint32 .u32 .u32 o hz hfx f h0 h1 j (by simp only [parseLeaf]; cases gvInt _ j <;> rfl)
-        (fun v a b => by
-          simp only [JsonDecInt.lo, JsonDecInt.hi, ITy.signed, ITy.bits, Bool.false_eq_true, if_false, Int.reducePow] at a b
-          refine ⟨by unfold IntKind.inRange; simp only [IntKind.signed, IntKind.bits, Bool.false_eq_true, if_false, Bool.and_eq_true]; exact ⟨decide_eq_true (by omega), decide_eq_true (by omega)⟩, Or.inr ⟨rfl, by omega, by omega⟩⟩)
-    -- string / bytes
-    all_goals
-      cases hs : gvString j with
+    rename_i hzf
+    simp only [leafVal]
+    cases hb : gvBool j with
+    | none => simp [parseLeaf, hb]
+    | some v =>
+      cases v with
+      | false => left; simp [parseLeaf, hb, Spec.Protobuf.zeroOf]
+      | true =>
+        right
+        refine ⟨fieldVarint f 1#64, .varint 1, by simp [parseLeaf, hb], ?_, ?_, by simp [sdec, decodeOne]⟩
+        · have := fieldVarint_length f 1#64; omega
+        · simpa using valid_fieldVarint f 1#64 h0 h1
+  · -- int32 family
+    by_cases hfx : o.fixed = true
+    · by_cases hzz : o.zigzag = true
+      · simp [hfx, hzz] at hk
+      · simp only [hfx, hzz, if_true, Bool.false_eq_true, if_false, Option.some.injEq] at hk; subst hk
+        simp only [leafVal]
+        exact leaf_int_gen pf .sfix32 .i32 _ o f j (fun v => fieldFixed32 f (BitVec.ofInt 32 v))
+          (fun v => .i32 (le32 (BitVec.ofInt 32 v))) (by simp only [parseLeaf]; cases gvInt _ j <;> rfl) rfl
+          (fun v a b => by
+            obtain ⟨a, b⟩ := range_i32 v a b
+            refine ⟨fieldFixed32_length _ _, valid_fieldFixed32 f _ h0 h1, ?_⟩
+            simp only [sdec, decodeOne, hfx, if_true, ProtoWire.leNat_le32, BitVec.toNat_ofInt]
+            simp only [Int.reducePow, Nat.reducePow] at a b ⊢
+            congr 2; split <;> omega)
+    · simp only [Bool.not_eq_true] at hfx
+      by_cases hzz : o.zigzag = true
+      · simp only [hfx, hzz, if_true, Bool.false_eq_true, if_false, Option.some.injEq] at hk; subst hk
+        simp only [leafVal]
+        exact leaf_int_gen pf .sint32 .i32 _ o f j
+          (fun v => fieldVarint f ((encodeZigZag32 (BitVec.ofInt 32 v)).zeroExtend 64))
+          (fun v => .varint (zigzag v)) (by simp only [parseLeaf]; cases gvInt _ j <;> rfl) rfl
+          (fun v a b => by
+            obtain ⟨a, b⟩ := range_i32 v a b
+            refine ⟨fieldVarint_length _ _, ?_, sdec_zigzag .i32 o hzz hfx v rfl (inRange_i32 v a b)⟩
+            have := valid_fieldVarint f ((encodeZigZag32 (BitVec.ofInt 32 v)).zeroExtend 64) h0 h1
+            rwa [BitVec.toNat_setWidth, Nat.mod_eq_of_lt (by have := (encodeZigZag32 (BitVec.ofInt 32 v)).isLt; omega),
+              zigzag32_spec v a (by omega)] at this)
+      · simp only [Bool.not_eq_true] at hzz
+        simp only [hfx, hzz, Bool.false_eq_true, if_false, Option.some.injEq] at hk; subst hk
+        simp only [leafVal]
+        exact leaf_int_gen pf .int32 .i32 _ o f j (fun v => fieldVarint f (BitVec.ofInt 64 v))
+          (fun v => .varint (BitVec.ofInt 64 v).toNat) (by simp only [parseLeaf]; cases gvInt _ j <;> rfl) rfl
+          (fun v a b => by
+            obtain ⟨a, b⟩ := range_i32 v a b
+            exact ⟨fieldVarint_length _ _, valid_fieldVarint f _ h0 h1,
+              sdec_signed .i32 o hzz hfx v rfl (inRange_i32 v a b) (by omega) (by omega)⟩)
+  · -- int64 family
+    by_cases hfx : o.fixed = true
+    · by_cases hzz : o.zigzag = true
+      · simp [hfx, hzz] at hk
+      · simp only [hfx, hzz, if_true, Bool.false_eq_true, if_false, Option.some.injEq] at hk; subst hk
+        simp only [leafVal]
+        exact leaf_int_gen pf .sfix64 .i64 _ o f j (fun v => fieldFixed64 f (BitVec.ofInt 64 v))
+          (fun v => .i64 (le64 (BitVec.ofInt 64 v))) (by simp only [parseLeaf]; cases gvInt _ j <;> rfl) rfl
+          (fun v a b => by
+            obtain ⟨a, b⟩ := range_i64 v a b
+            refine ⟨fieldFixed64_length _ _, valid_fieldFixed64 f _ h0 h1, ?_⟩
+            simp only [sdec, decodeOne, hfx, if_true, ProtoWire.leNat_le64, BitVec.toNat_ofInt, toInt64]
+            simp only [Int.reducePow, Nat.reducePow] at a b ⊢
+            congr 2; split <;> omega)
+    · simp only [Bool.not_eq_true] at hfx
+      by_cases hzz : o.zigzag = true
+      · simp only [hfx, hzz, if_true, Bool.false_eq_true, if_false, Option.some.injEq] at hk; subst hk
+        simp only [leafVal]
+        exact leaf_int_gen pf .sint64 .i64 _ o f j (fun v => fieldVarint f (encodeZigZag64 (BitVec.ofInt 64 v)))
+          (fun v => .varint (zigzag v)) (by simp only [parseLeaf]; cases gvInt _ j <;> rfl) rfl
+          (fun v a b => by
+            obtain ⟨a, b⟩ := range_i64 v a b
+            refine ⟨fieldVarint_length _ _, ?_, sdec_zigzag .i64 o hzz hfx v rfl (inRange_i64 v a b)⟩
+            have := valid_fieldVarint f (encodeZigZag64 (BitVec.ofInt 64 v)) h0 h1
+            rwa [ProtoVarint.zigzag_spec v a (by omega)] at this)
+      · simp only [Bool.not_eq_true] at hzz
+        simp only [hfx, hzz, Bool.false_eq_true, if_false, Option.some.injEq] at hk; subst hk
+        simp only [leafVal]
+        exact leaf_int_gen pf .int64 .i64 _ o f j (fun v => fieldVarint f (BitVec.ofInt 64 v))
+          (fun v => .varint (BitVec.ofInt 64 v).toNat) (by simp only [parseLeaf]; cases gvInt _ j <;> rfl) rfl
+          (fun v a b => by
+            obtain ⟨a, b⟩ := range_i64 v a b
+            exact ⟨fieldVarint_length _ _, valid_fieldVarint f _ h0 h1,
+              sdec_signed .i64 o hzz hfx v rfl (inRange_i64 v a b) (by omega) (by omega)⟩)
+  · -- int (64 bits)
+    by_cases hfx : o.fixed = true
+    · simp [hfx] at hk
+    · simp only [Bool.not_eq_true] at hfx
+      by_cases hzz : o.zigzag = true
+      · simp only [hfx, hzz, if_true, Bool.false_eq_true, if_false, Option.some.injEq] at hk; subst hk
+        simp only [leafVal]
+        exact leaf_int_gen pf .sint64 .i64 _ o f j (fun v => fieldVarint f (encodeZigZag64 (BitVec.ofInt 64 v)))
+          (fun v => .varint (zigzag v)) (by simp only [parseLeaf]; cases gvInt _ j <;> rfl) rfl
+          (fun v a b => by
+            obtain ⟨a, b⟩ := range_i64 v a b
+            refine ⟨fieldVarint_length _ _, ?_, sdec_zigzag .int o hzz hfx v rfl (inRange_int v a b)⟩
+            have := valid_fieldVarint f (encodeZigZag64 (BitVec.ofInt 64 v)) h0 h1
+            rwa [ProtoVarint.zigzag_spec v a (by omega)] at this)
+      · simp only [Bool.not_eq_true] at hzz
+        simp only [hfx, hzz, Bool.false_eq_true, if_false, Option.some.injEq] at hk; subst hk
+        simp only [leafVal]
+        exact leaf_int_gen pf .int64 .i64 _ o f j (fun v => fieldVarint f (BitVec.ofInt 64 v))
+          (fun v => .varint (BitVec.ofInt 64 v).toNat) (by simp only [parseLeaf]; cases gvInt _ j <;> rfl) rfl
+          (fun v a b => by
+            obtain ⟨a, b⟩ := range_i64 v a b
+            exact ⟨fieldVarint_length _ _, valid_fieldVarint f _ h0 h1,
+              sdec_signed .int o hzz hfx v rfl (inRange_int v a b) (by omega) (by omega)⟩)
+  · -- uint32 / fixed32
+    by_cases hzz : o.zigzag = true
+    · simp [hzz] at hk
+    · simp only [Bool.not_eq_true] at hzz
+      by_cases hfx : o.fixed = true
+      · simp only [hfx, hzz, if_true, Bool.false_eq_true, if_false, Option.some.injEq] at hk; subst hk
+        simp only [leafVal]
+        exact leaf_int_gen pf .fix32 .u32 _ o f j (fun v => fieldFixed32 f (BitVec.ofInt 32 v))
+          (fun v => .i32 (le32 (BitVec.ofInt 32 v))) (by simp only [parseLeaf]; cases gvInt _ j <;> rfl) rfl
+          (fun v a b => by
+            obtain ⟨a, b⟩ := range_u32 v a b
+            refine ⟨fieldFixed32_length _ _, valid_fieldFixed32 f _ h0 h1, ?_⟩
+            simp only [sdec, decodeOne, hfx, if_true, ProtoWire.leNat_le32, toNat_ofInt32 v a b])
+      · simp only [Bool.not_eq_true] at hfx
+        simp only [hfx, hzz, Bool.false_eq_true, if_false, Option.some.injEq] at hk; subst hk
+        simp only [leafVal]
+        exact leaf_int_gen pf .uint32 .u32 _ o f j (fun v => fieldVarint f (BitVec.ofInt 64 v))
+          (fun v => .varint (BitVec.ofInt 64 v).toNat) (by simp only [parseLeaf]; cases gvInt _ j <;> rfl) rfl
+          (fun v a b => by
+            obtain ⟨a, b⟩ := range_u32 v a b
+            exact ⟨fieldVarint_length _ _, valid_fieldVarint f _ h0 h1,
+              sdec_unsigned .u32 o hfx v rfl (inRange_u32 v a b) a (by omega)⟩)
+  · -- uint64 / fixed64
+    by_cases hzz : o.zigzag = true
+    · simp [hzz] at hk
+    · simp only [Bool.not_eq_true] at hzz
+      by_cases hfx : o.fixed = true
+      · simp only [hfx, hzz, if_true, Bool.false_eq_true, if_false, Option.some.injEq] at hk; subst hk
+        simp only [leafVal]
+        exact leaf_int_gen pf .fix64 .u64 _ o f j (fun v => fieldFixed64 f (BitVec.ofInt 64 v))
+          (fun v => .i64 (le64 (BitVec.ofInt 64 v))) (by simp only [parseLeaf]; cases gvInt _ j <;> rfl) rfl
+          (fun v a b => by
+            obtain ⟨a, b⟩ := range_u64 v a b
+            refine ⟨fieldFixed64_length _ _, valid_fieldFixed64 f _ h0 h1, ?_⟩
+            simp only [sdec, decodeOne, hfx, if_true, ProtoWire.leNat_le64, toNat_ofInt64 v a b])
+      · simp only [Bool.not_eq_true] at hfx
+        simp only [hfx, hzz, Bool.false_eq_true, if_false, Option.some.injEq] at hk; subst hk
+        simp only [leafVal]
+        exact leaf_int_gen pf .uint64 .u64 _ o f j (fun v => fieldVarint f (BitVec.ofInt 64 v))
+          (fun v => .varint (BitVec.ofInt 64 v).toNat) (by simp only [parseLeaf]; cases gvInt _ j <;> rfl) rfl
+          (fun v a b => by
+            obtain ⟨a, b⟩ := range_u64 v a b
+            exact ⟨fieldVarint_length _ _, valid_fieldVarint f _ h0 h1,
+              sdec_unsigned .u64 o hfx v rfl (inRange_u64 v a b) a (by omega)⟩)
+  · -- uint
+    split at hk <;> cases hk
+    rename_i hzf
+    simp only [Bool.or_eq_true, not_or, Bool.not_eq_true] at hzf
+    obtain ⟨hzz, hfx⟩ := hzf
+    simp only [leafVal]
+    exact leaf_int_gen pf .uint64 .u64 _ o f j (fun v => fieldVarint f (BitVec.ofInt 64 v))
+      (fun v => .varint (BitVec.ofInt 64 v).toNat) (by simp only [parseLeaf]; cases gvInt _ j <;> rfl) rfl
+      (fun v a b => by
+        obtain ⟨a, b⟩ := range_u64 v a b
+        exact ⟨fieldVarint_length _ _, valid_fieldVarint f _ h0 h1,
+          sdec_unsigned .uint o hfx v rfl (inRange_uint v a b) a (by omega)⟩)
+  · -- float32
+    split at hk <;> cases hk
+    simp only [leafVal]
+    exact leaf_float_gen pf .float 32 _ o f j (fun b => fieldFixed32 f (BitVec.ofNat 32 b))
+      (fun b => .i32 (le32 (BitVec.ofNat 32 b))) (by simp only [parseLeaf]; cases gvFloat pf 32 j <;> rfl) rfl
+      (fun b hb => (gvFloat_width pf hpf j b).1 hb)
+      (fun b hb => ⟨fieldFixed32_length _ _, valid_fieldFixed32 f _ h0 h1, by
+        simp only [sdec, decodeOne, ProtoWire.leNat_le32, BitVec.toNat_ofNat, Nat.mod_eq_of_lt hb]⟩)
+  · -- float64
+    split at hk <;> cases hk
+    simp only [leafVal]
+    exact leaf_float_gen pf .double 64 _ o f j (fun b => fieldFixed64 f (BitVec.ofNat 64 b))
+      (fun b => .i64 (le64 (BitVec.ofNat 64 b))) (by simp only [parseLeaf]; cases gvFloat pf 64 j <;> rfl) rfl
+      (fun b hb => (gvFloat_width pf hpf j b).2 hb)
+      (fun b hb => ⟨fieldFixed64_length _ _, valid_fieldFixed64 f _ h0 h1, by
+        simp only [sdec, decodeOne, ProtoWire.leNat_le64, BitVec.toNat_ofNat, Nat.mod_eq_of_lt hb]⟩)
+  -- string / bytes
+  all_goals (try (split at hk <;> cases hk))
+  all_goals (try (rename_i hzf; simp only [leafVal]))
+  all_goals
+    first
+    | (cases hk; done)
+    | (cases hs : gvString j with
       | none => simp [parseLeaf, hs]
       | some s =>
         simp only [Option.map_some]
@@ -234,6 +529,6 @@ theorem leaf_sem (pf : PF) (t : Ty) (o : FieldOpt) (k : PKind) (hk : kindOf t o 
           refine ⟨fieldVarlen f s, .len s, by simp [parseLeaf, hs, hne], ?_, valid_fieldVarlen f s h0 h1 (hlen s hs),
             by simp [sdec, decodeOne, hne]⟩
           have := appendField_length_le f 2 s
-          simp only [fieldVarlen, strLen, hs]; omega
+          simp only [fieldVarlen, strLen, hs]; omega)
 
 end Enc.Lemmas.ProtoTemplate
